@@ -190,7 +190,15 @@ class Fn:
                 # `let x = if c { a } else { b };` - one assignment per branch of an immutable variable, at least
                 # one of them computed (a destructuring `let (a, b) = match v {..}` that merely moves fields stays
                 # a variable: it is a binding, not a named expression)
-                res = any(d[0] == "call" or d[3]["k"] in ("binop", "unop", "cast", "agg", "repeat") or (d[3]["k"] == "use" and d[3]["op"].get("k") == "const") for d in ds)
+                self._new_let[local] = False  # cycle guard
+                res = any(
+                    d[0] == "call"
+                    or d[3]["k"] in ("binop", "unop", "cast", "agg", "repeat")
+                    or (d[3]["k"] == "use" and d[3]["op"].get("k") == "const")
+                    # a branch that yields another named expression (`None => last_segment_end`)
+                    or (d[3]["k"] == "use" and d[3]["op"].get("k") in ("copy", "move") and not d[3]["op"]["place"]["proj"] and self.is_new_let(d[3]["op"]["place"]["local"]))
+                    for d in ds
+                )
             elif len(ds) == 1 and ds[0][0] in ("assign", "call"):
                 if ds[0][0] == "call":
                     res = True
